@@ -107,6 +107,39 @@ def displaced_wills():
     return out
 
 
+def lost_while_answering():
+    """the broker notices that the connection is gone only when it writes its answer to the session's last packet: the client has
+    stopped reading (the write blocks), sends a packet that needs an answer, and hangs up.  However the loss is noticed - by a
+    read or by a write - the session ended without DISCONNECT and its will is owed."""
+    out = []
+    k = 0
+    lasts = [{"op": "send", "kind": "PINGREQ"},
+             {"op": "sub", "id": 9, "fs": [{"f": ["late"], "q": 1}]},
+             {"op": "pub", "t": ["w", "live"], "p": "last-words", "q": 1, "r": False, "id": 11},
+             {"op": "unsub", "id": 10, "fs": [{"f": ["z"], "q": 0}]}]
+    for node, nodes in ((1, [1]), (2, [1, 2])):
+        for last in lasts:
+            for q, r in ((0, False), (1, True)):
+                k += 1
+                ops = [{"op": "connect", "c": 7, "n": 1, "client": "watch7", "user": "tenant:A", "ka": 60000},
+                       {"op": "sub", "c": 7, "id": 1, "fs": [{"f": ["w", "#"], "q": 1}]},
+                       {"op": "connect", "c": 5, "n": nodes[-1], "client": "watch5", "user": "tenant:B", "ka": 60000},
+                       {"op": "sub", "c": 5, "id": 1, "fs": [{"f": ["#"], "q": 1}]},
+                       {"op": "connect", "c": 1, "n": node, "client": "mortal", "user": "tenant:A", "ka": 600,
+                        "will": {"t": ["w", "mortal", "x"], "p": "will-lw%d" % k, "q": q, "r": r}},
+                       {"op": "sub", "c": 1, "id": 2, "fs": [{"f": ["z"], "q": 0}]},
+                       {"op": "stall", "c": 1, "on": True},
+                       dict(last, c=1, nowait=True),
+                       {"op": "wait", "ms": 120},
+                       {"op": "close", "c": 1},
+                       {"op": "quiesce"}]
+                if k % 2 == 0:      # and a later subscriber gets the retained will, if it was one
+                    ops[-1:] = [{"op": "connect", "c": 6, "n": 1, "client": "late6", "user": "tenant:A", "ka": 60000},
+                                {"op": "sub", "c": 6, "id": 1, "fs": [{"f": ["w", "+", "x"], "q": 1}]}, {"op": "quiesce"}]
+                out.append({"nodes": nodes, "ops": ops})
+    return out
+
+
 def check(run):
     thorough = run.tier == "thorough"
     run.model_check("MC_Session", "MC_Session_keepalive.cfg")
@@ -135,6 +168,7 @@ def check(run):
     scns += t3
     scns += displaced_wills()
     scns += late_gossip_then_failure()
+    scns += lost_while_answering()
     run.log("%d will scripts (%d with a node failure on two nodes, %d on three)" % (len(scns), min(len(pf), npf), len(t3)))
     tpath, crashes = brokerlib.execute(run, scns, "c13", shards=14, timeout=3000)
     if crashes:
